@@ -224,10 +224,15 @@ def _div_rec(chk, e, guards, fname, site, template):
         ovf_ok = not ti[2]
         for g, taken in guards:
             g0, _ = _unwrap(g)
-            if g0.k == 'bin' and g0.x == '==' and not taken:
+            # divisor known non-zero: `y == 0` / `!y` not taken, or `y != 0` / `y` taken
+            if g0.k == 'bin' and g0.x in ('==', '!=') and (g0.x == '!=') == taken:
                 for x, c in ((g0.a[0], g0.a[1]), (g0.a[1], g0.a[0])):
                     if ct.const_value(c) == 0 and ct.iabs(x)[:3] == dslot[:3]:
                         zero_ok = True
+            elif g0.k == 'un' and g0.x == '!' and not taken and ct.iabs(_unwrap(g0.a[0])[0])[:3] == dslot[:3]:
+                zero_ok = True
+            elif taken and g0.k in ('var', 'cast') and ct.iabs(g)[:3] == dslot[:3]:
+                zero_ok = True
             if g0.k == 'bin' and g0.x == '&&' and not taken and ti[2]:
                 consts = [ct.const_value(_unwrap(s_)[0].a[1]) for s_ in g0.a if _unwrap(s_)[0].k == 'bin' and _unwrap(s_)[0].x == '==']
                 if -1 in consts and -(1 << (ti[1] - 1)) in consts:
